@@ -44,7 +44,7 @@ def gen_cases(run):
     for _ in range(n):
         B = rng.choice([3, 4, 5, 6, 7, 8])
         ops = gen_graph_history(rng, B, run.thorough)
-        cases.append(Case("spath", [B], ops, {"cap": rng.choice([0, 2, 8])}))
+        cases.append(Case("spath", [B], ops, {"cap": rng.choice([0, 2, 8, 9001, 9002])}))
         dist["graphs"] += 1; dist["queries"] += B * B
         if any(o[0] in (2, 5, 6) for o in ops): dist["with_removals"] += 1
         if any(o[0] == 3 or (o[0] == 4 and o[3] == 0) for o in ops): dist["with_zero_weight"] += 1
@@ -91,7 +91,7 @@ def main():
                      "petgraph's astar itself is covered per explored input only (translation validation)")
     run.finish(extra_trusted=["petgraph::algo::astar is NOT modelled: each of its answers is validated by the proved checker (translation validation)",
                               "the specification graph the checker runs on is rebuilt from the op history through C08's spec step (sstep) with the implementation's return values"],
-               assumptions=["path sums may exceed u64 (weights up to 2^64-1 are generated): the implementation accumulates the cost in u128 since the fix of D12; the model computes in N", "the reference distances (Bellman-Ford, |nodes| rounds) being closed under relaxation is CHECKED per query, not proved complete; a non-closed labelling would reject (alarm), never accept"])
+               assumptions=["path sums may exceed u64 (weights up to 2^64-1 are generated): the implementation accumulates the cost in u128 since the fix of D12; the model computes in N", "the reference distances (Bellman-Ford, |nodes| rounds) are closed under relaxation: theorem C15_reference_distances_are_closed (Graph/BellmanFord.v); the checker is complete as well as sound"])
 
 
 def replay(path):
